@@ -212,7 +212,7 @@ struct Controller {
     r->granted = true;
     s->active = t;
     s->steps++;
-    s->cv.notify_all();
+    r->cv.notify_one();
     s->cv.wait(lk, [&] { return s->active == -1; });
     return true;
   }
@@ -241,6 +241,7 @@ std::string do_run(const std::string& rest) {
     g.orders.clear();
   }
   g.mode.store(c03::CTRL);
+  alarm(120);   // a replay that stops making progress without reaching a scheduling point
 
   c03::ThreadRec* r0 = new c03::ThreadRec();
   r0->id = 0;
@@ -279,6 +280,7 @@ std::string do_run(const std::string& rest) {
     if (s->steps > kLimit) verdict = "LIVELOCK";
   }
 
+  alarm(0);
   std::string out;
   {
     std::lock_guard<std::mutex> lk(s->mu);
